@@ -141,6 +141,12 @@ def builtin(ex, name, pos, kw, st: State) -> SV:
         raise Unsupported('list() of %s/%s' % (v.kind, v.cls))
     if name == 'dict':
         if not pos and not kw: return ex.new_dict(st)
+        if len(pos) == 1 and not kw:
+            v = pos[0]
+            if v.kind == 'val' and v.ty is not None and v.ty.kind == 'dict':
+                v = sv_ref(ex.as_ref(v, st, 'dict()'), NonOpt(v.ty))
+            if v.kind == 'ref' and v.cls == 'dict':
+                return container_method(ex, v, 'copy', [], {}, st)          # dict(d): shallow copy
         raise Unsupported('dict(...)')
     if name == 'set':
         if not pos and not kw:
